@@ -175,6 +175,19 @@ fn main() {
                     if bk == 1 {
                         backup_expected.push(req.clone());
                     }
+                    // the error the layer produces is a value like any other: a copy of it (the
+                    // coalesce layer hands copies to its waiters) says the same thing
+                    if let Err(e) = &got {
+                        let copy = e.clone();
+                        let same = match (e, &copy) {
+                            (FallbackError::Inner(a), FallbackError::Inner(b)) => a == b,
+                            (FallbackError::FallbackFailed(a), FallbackError::FallbackFailed(b)) => a == b,
+                            _ => false,
+                        };
+                        if !same || format!("{e:?}") != format!("{copy:?}") || e.to_string() != copy.to_string() {
+                            viols.push(("error_changes_when_cloned".into(), format!("the layer returned {e:?}; a clone of that error is {copy:?}")));
+                        }
+                    }
                     let got_n = match got {
                         Ok(r) => Res::Ok(r),
                         Err(FallbackError::Inner(e)) => Res::Inner(e),
